@@ -54,6 +54,21 @@ CHECKS = {
  "C20": dict(tech="in-process differential monitor against strconv over every valid code point and spelling; read-back of literals through a real gocc run",
    text="Exploration (thorough: exhaustive over all valid code points x all covered spellings): generated util.RuneValue and gocc's own LitToRune against strconv.UnquoteChar; IntValue/UintValue against strconv.ParseInt/ParseUint on boundary and random decimal strings; literals pushed through gocc and read back from the generated transition table.",
    note="strconv defines Go's literal semantics.", ref="4/C20"),
+ "C09": dict(tech="step-counter hooks + CPU rlimit (bounded-progress termination), file-set completeness check, batch go build of everything that exited 0, strace fault injection",
+   text="Exploration + fault enumeration: hostile well-formed grammars, byte/token mutants, random flag combinations (incl. -o/-p forms) and deeply nested nullable patterns run through the real gocc under a step budget on every instrumented loop; exit 0 must mean all required packages written, non-empty and compilable; the N-th write/openat/mkdirat is failed with strace for every N and a run that still exits 0 must have produced the fault-free output.",
+   note="Termination restated as bounded progress on size-bounded inputs; wall-clock watchdog alone is inconclusive.", ref="4/C09"),
+ "C10": dict(tech="invariant monitor over the compiled token package (Id/Type tables), lexer return types and by-name vs through-lexer parse logs",
+   text="Exploration: grammars in lexer-only, -no_lexer and combined modes with hostile terminal spellings; INVALID=0, end-of-input=1, remaining terminals distinct/consecutive, Id and Type mutually inverse, unknown names map to INVALID, the lexer returns and the parser consumes exactly these numbers.",
+   note="Pseudo symbols empty/error tolerated as extra names; reserved spellings excluded (finding F9).", ref="4/C10"),
+ "C12": dict(tech="differential monitor across flag variants: decoded tables dumped entry by entry, parse observations, token streams and positions vs the flag-less variant",
+   text="Exploration: for each grammar the flag-less variant and variants with subsets of the five presentation flags are compiled and driven with the same inputs; all observations and the decoded tables must be equal; -no_lexer must only remove the lexer package.",
+   note="A dump function is added to the scratch copy of package parser to read the decoded tables; debug output on stdout ignored.", ref="4/C12"),
+ "C16": dict(tech="history monitor: observations of every call on a reused Parser / reset Lexer vs a fresh object on the same input",
+   text="Exploration: histories of 2-6 Parse calls (valid, failing, recovering, action-error; by name or through the lexer) on one Parser, and scan-k-then-Reset on lexers; each call's complete observation must equal a fresh object's.",
+   note="Fresh-object behaviour is the oracle (judged itself by C01-C08).", ref="4/C16"),
+ "C17": dict(tech="Go race detector (-race build, GORACE log counted and de-duplicated) + per-goroutine observation equality against a sequential pass",
+   text="Exploration of schedules: 16/32 goroutines released by a barrier, each with its own lexer/parser/recorder, run all inputs in different orders several times on plain and -zip parsers incl. error rendering; zero race reports and all observations equal to the sequential ones; measured overlap reported (<2 is inconclusive).",
+   note="The race detector only sees accesses the workload performs; monitor state is goroutine-local.", ref="4/C17"),
 }
 
 NOT_YET = "check not built yet in this tree (work in progress; see DESIGN.md section 4 for the planned monitor)"
